@@ -325,7 +325,7 @@ func genC11(o *vcoq.Out, r *vcoq.Rand, tier string) error {
 	}
 	buildS := time.Since(t0).Seconds()
 
-	dur := 4 * time.Second
+	dur := 8 * time.Second
 	if tier == "thorough" {
 		dur = 60 * time.Second
 	}
@@ -440,6 +440,8 @@ func genC11(o *vcoq.Out, r *vcoq.Rand, tier string) error {
 				js := map[string]any{"loc": loc, "fn_a": fa, "fn_b": fb, "raced": rcd}
 				if rcd {
 					js["race_class"] = cls
+					js["report"] = distinct[cls].Accesses
+					js["workload"] = distinct[cls].Workload
 				}
 				coq := vcoq.App("KPair", vcoq.Str(loc), vcoq.Str(fa), vcoq.Str(fb), vcoq.Bool(rcd))
 				o.Add(vcoq.Case{Coq: coq, JSON: js, Key: coq, NonTrivial: true, Tags: tags})
